@@ -878,6 +878,16 @@ public:
     }
     if (tight)
       L.pool_margin = c.threads + 2;
+    {
+      const char **ml = prop == "C03"   ? C03_CLASSES
+                        : prop == "C01" ? C01_CLASSES
+                                        : nullptr;
+      if (ml)
+        for (int k = 0; ml[k]; ++k)
+          L.my_classes.insert(ml[k]);
+      else
+        L.my_classes.insert("(none)");
+    }
     L.record_segments = (prop == "C03");
     L.check_handover = true;
     if (prop == "C03")
@@ -955,6 +965,9 @@ public:
                             "' seen (decided by another property's check)");
       }
     }
+    for (auto &fc : L.foreign_classes_seen)
+      out.notes.push_back("violation class '" + fc +
+                          "' seen (decided by another property's check)");
     out.restart_worker = !finished;
     out.hash = fnv1a(rs.hash, L.ledger_hash);
     out.executed = rs.executed;
